@@ -154,7 +154,42 @@ Proof.
 Qed.
 
 Lemma sync_code_curr tab ss c cur nx st : s_curr (sync_code tab ss c cur nx st) = s_curr st.
-Proof. unfold sync_code. destruct (fired c cur nx); reflexivity. Qed.
+Proof. unfold sync_code. destruct (clk_edge c cur nx); [reflexivity|]. destruct (rst_rise c cur nx); reflexivity. Qed.
+
+Lemma sync_code_frame tab ss c cur nx st i b : 0 <= b -> Z.testbit (um tab ss i) b = false ->
+  Z.testbit (s_next (sync_code tab ss c cur nx st) i) b = Z.testbit (s_next st i) b.
+Proof.
+  intros Hb H. unfold sync_code. destruct (clk_edge c cur nx); [apply sync_frame; auto|].
+  destruct (rst_rise c cur nx); [apply reset_only_frame; auto|reflexivity].
+Qed.
+
+Lemma sync_code_unfired tab ss c cur nx st : fired c cur nx = false -> sync_code tab ss c cur nx st = st.
+Proof.
+  unfold fired, sync_code. intros H. apply orb_false_elim in H. destruct H as [-> ->]. reflexivity.
+Qed.
+
+(* a reset rise alone: init into every driven bit of a non-reset-less signal, nothing else *)
+Lemma reset_only_bit tab ss st i b : 0 <= b ->
+  Z.testbit (um tab ss i) b = true -> sd_reset_less (tab i) = false ->
+  Z.testbit (s_next (reset_only tab ss st) i) b = Z.testbit (sd_init (tab i)) b.
+Proof.
+  intros Hb Hd Hrl. unfold reset_only; cbn [s_next]. rewrite (um_driven _ _ _ _ Hd), Hrl. cbn [orb].
+  rewrite testbit_slot_update by lia. fold (um tab ss i). rewrite Hd. reflexivity.
+Qed.
+
+Lemma reset_only_rl tab ss st i : sd_reset_less (tab i) = true -> s_next (reset_only tab ss st) i = s_next st i.
+Proof. intros H. unfold reset_only; cbn [s_next]. rewrite H, orb_true_r. reflexivity. Qed.
+
+(* the woken process with reset asserted (clock edge with rst high, or reset rise) loads init *)
+Lemma sync_code_reset_bit tab ss c r cur nx st i b : 0 <= b ->
+  fired c cur nx = true -> d_rst c = Some r -> Z.land 1 (s_curr st r) <> 0 ->
+  Z.testbit (um tab ss i) b = true -> sd_reset_less (tab i) = false ->
+  Z.testbit (s_next (sync_code tab ss c cur nx st) i) b = Z.testbit (sd_init (tab i)) b.
+Proof.
+  intros Hb Hf Hr Hon Hd Hrl. unfold sync_code. unfold fired in Hf. destruct (clk_edge c cur nx).
+  - rewrite Hr. apply sync_reset_bit; auto.
+  - cbn [orb] in Hf. rewrite Hf. apply reset_only_bit; auto.
+Qed.
 
 (* ---------- C03 clause 1: a bit driven only from domain d changes only when d's waker fires ---------- *)
 Definition only_dom (D : design) (d : dom) (i : nat) (b : Z) : Prop :=
@@ -172,9 +207,8 @@ Proof.
   unfold delta2. destruct (Z.testbit (um (g_tab D) (snd p) i) b) eqn:E.
   - pose proof (Honly p Hin E) as Hp. destruct (Nat.eqb (fst p) 0) eqn:E0.
     + apply Nat.eqb_eq in E0. congruence.
-    + unfold sync_code. rewrite Hp, Hnf. reflexivity.
-  - destruct (Nat.eqb (fst p) 0); [apply comb_frame; auto|].
-    unfold sync_code. dfired; auto. apply sync_frame; auto.
+    + rewrite Hp, sync_code_unfired by auto. reflexivity.
+  - destruct (Nat.eqb (fst p) 0); [apply comb_frame; auto|apply sync_code_frame; auto].
 Qed.
 
 Theorem unfired_unchanged D e cur d i b : 0 <= b -> d <> 0%nat ->
@@ -192,56 +226,51 @@ Proof.
   - apply incl_refl.
 Qed.
 
-(* the full clause with resets: without an active clock edge the bit keeps its value, or (async reset rise)
-   takes its initial value; reset-less signals of async domains are excluded (finding F7) *)
-Lemma delta2_reset_or_keep D cur nx d r i b : 0 <= b -> d <> 0%nat ->
+(* the full clause: without an active clock edge the bit keeps its value, or (reset rise of an async domain, signal
+   not reset-less) takes its initial value; reset-less signals always keep theirs *)
+Lemma delta2_reset_or_keep D cur nx d i b : 0 <= b -> d <> 0%nat ->
   (forall p, In p (g_procs D) -> Z.testbit (um (g_tab D) (snd p) i) b = true -> fst p = d) ->
-  d_rst (g_doms D d) = Some r -> nx r = 1 -> sd_reset_less (g_tab D i) = false ->
+  clk_edge (g_doms D d) cur nx = false ->
   forall procs, incl procs (g_procs D) ->
-  forall st, s_curr st = nx ->
+  forall st,
     let st' := fold_left (delta2 sync_code D cur nx) procs st in
     Z.testbit (s_next st' i) b = Z.testbit (s_next st i) b \/
-    Z.testbit (s_next st' i) b = Z.testbit (sd_init (g_tab D i)) b.
+    (rst_rise (g_doms D d) cur nx = true /\ sd_reset_less (g_tab D i) = false /\
+     Z.testbit (s_next st' i) b = Z.testbit (sd_init (g_tab D i)) b).
 Proof.
-  intros Hb Hd Honly Hr Hnx Hrl. induction procs as [|p procs IH]; intros Hincl st Hc; simpl; auto.
+  intros Hb Hd Honly Hck. induction procs as [|p procs IH]; intros Hincl st; simpl; auto.
   assert (Hin : In p (g_procs D)) by (apply Hincl; simpl; auto).
-  assert (Hc' : s_curr (delta2 sync_code D cur nx st p) = nx).
-  { unfold delta2. destruct (Nat.eqb (fst p) 0); [rewrite comb_curr|rewrite sync_code_curr]; auto. }
-  destruct (IH (fun q Hq => Hincl q (or_intror Hq)) _ Hc') as [IH1|IH1]; [|right; exact IH1].
+  destruct (IH (fun q Hq => Hincl q (or_intror Hq)) (delta2 sync_code D cur nx st p)) as [IH1|IH1]; [|right; exact IH1].
   cbv zeta in IH1. rewrite IH1. clear IH1.
   unfold delta2. destruct (Z.testbit (um (g_tab D) (snd p) i) b) eqn:E.
   - pose proof (Honly p Hin E) as Hp. destruct (Nat.eqb (fst p) 0) eqn:E0.
     + apply Nat.eqb_eq in E0. congruence.
-    + unfold sync_code. dfired; [|left; reflexivity]. right.
-      rewrite Hp, Hr. apply sync_reset_bit; auto. rewrite Hc, Hnx. discriminate.
-  - left. destruct (Nat.eqb (fst p) 0); [apply comb_frame; auto|].
-    unfold sync_code. dfired; auto. apply sync_frame; auto.
+    + unfold sync_code. rewrite Hp, Hck. destruct (rst_rise (g_doms D d) cur nx) eqn:Hrr; [|left; reflexivity].
+      destruct (sd_reset_less (g_tab D i)) eqn:Hrl.
+      * left. rewrite reset_only_rl by auto. reflexivity.
+      * right. split; [reflexivity|]. split; [reflexivity|]. apply reset_only_bit; auto.
+  - left. destruct (Nat.eqb (fst p) 0); [apply comb_frame; auto|apply sync_code_frame; auto].
 Qed.
 
 Theorem no_clock_edge_keeps_or_resets D e cur d i b : 0 <= b -> d <> 0%nat ->
   only_dom D d i b -> ~ In i (map fst e) ->
   clk_edge (g_doms D d) cur (apply_writes e cur) = false ->
-  (d_async (g_doms D d) = true -> sd_reset_less (g_tab D i) = false) ->
   Z.testbit (step D e cur i) b = Z.testbit (cur i) b \/
-  (rst_rise (g_doms D d) cur (apply_writes e cur) = true /\
+  (rst_rise (g_doms D d) cur (apply_writes e cur) = true /\ sd_reset_less (g_tab D i) = false /\
    Z.testbit (step D e cur i) b = Z.testbit (sd_init (g_tab D i)) b).
 Proof.
-  intros Hb Hd Honly He Hck Hx.
-  destruct (rst_rise (g_doms D d) cur (apply_writes e cur)) eqn:Hrr.
-  2:{ left. apply (unfired_unchanged D e cur d); auto. unfold fired. rewrite Hck, Hrr. reflexivity. }
-  assert (Hrr' := Hrr). unfold rst_rise in Hrr'. destruct (d_rst (g_doms D d)) as [r|] eqn:Hr; [|discriminate].
-  apply andb_prop in Hrr'. destruct Hrr' as [Hrr1 Hrr3]. apply andb_prop in Hrr1. destruct Hrr1 as [Hasync _].
-  apply Z.eqb_eq in Hrr3.
+  intros Hb Hd Honly He Hck.
   unfold step. rewrite step_with_unfold. cbv zeta.
   rewrite settle_frame; auto.
   2:{ intros p Hp H0. destruct (Z.testbit (um (g_tab D) (snd p) i) b) eqn:E; auto.
       apply Honly in E; auto. congruence. }
   rewrite freeze_eq.
-  pose proof (delta2_reset_or_keep D cur (freeze (g_nsig D) (apply_writes e cur)) d r i b Hb Hd Honly Hr) as L.
-  rewrite freeze_eq in L. specialize (L Hrr3 (Hx Hasync) (g_procs D) (incl_refl _)
-     {| s_curr := freeze (g_nsig D) (apply_writes e cur); s_next := freeze (g_nsig D) (apply_writes e cur) |} eq_refl).
+  pose proof (delta2_reset_or_keep D cur (freeze (g_nsig D) (apply_writes e cur)) d i b Hb Hd Honly) as L.
+  rewrite clk_edge_freeze, rst_rise_freeze in L.
+  specialize (L Hck (g_procs D) (incl_refl _)
+     {| s_curr := freeze (g_nsig D) (apply_writes e cur); s_next := freeze (g_nsig D) (apply_writes e cur) |}).
   cbv zeta in L. cbn [s_next] in L. rewrite freeze_eq in L. rewrite apply_writes_other in L by auto.
-  destruct L as [L|L]; [left|right]; auto.
+  exact L.
 Qed.
 
 (* ---------- C03 clause 2/3: reset asserted when the process runs => initial value ---------- *)
@@ -259,10 +288,10 @@ Proof.
   - unfold delta2. destruct (Z.testbit (um (g_tab D) (snd p) i) b) eqn:E.
     + pose proof (Honly p Hin E) as Hp. destruct (Nat.eqb (fst p) 0) eqn:E0.
       * apply Nat.eqb_eq in E0. congruence.
-      * unfold sync_code. dfired; auto.
-        rewrite Hp, Hr. apply sync_reset_bit; auto. rewrite Hc. auto.
-    + rewrite <- Hi. destruct (Nat.eqb (fst p) 0); [apply comb_frame; auto|].
-      unfold sync_code. dfired; auto. apply sync_frame; auto.
+      * rewrite Hp. destruct (fired (g_doms D d) cur nx) eqn:Hf.
+        -- apply (sync_code_reset_bit _ _ _ r); auto. rewrite Hc. auto.
+        -- rewrite sync_code_unfired by auto. auto.
+    + rewrite <- Hi. destruct (Nat.eqb (fst p) 0); [apply comb_frame; auto|apply sync_code_frame; auto].
 Qed.
 
 Theorem fired_with_reset_loads_init D e cur d r p i b : 0 <= b -> d <> 0%nat ->
@@ -287,9 +316,9 @@ Proof.
   - unfold delta2 at 1. replace (Nat.eqb (fst p) 0) with false by (symmetry; apply Nat.eqb_neq; congruence).
     rewrite sync_code_curr. apply (delta2_curr sync_code D cur nx). intros; apply sync_code_curr.
   - unfold delta2 at 1. replace (Nat.eqb (fst p) 0) with false by (symmetry; apply Nat.eqb_neq; congruence).
-    unfold sync_code. rewrite Hp. unfold nx at 1. rewrite fired_freeze, Hf. rewrite Hr.
-    apply sync_reset_bit; auto.
-    rewrite (delta2_curr sync_code D cur nx) by (intros; apply sync_code_curr). auto.
+    rewrite Hp. apply (sync_code_reset_bit _ _ _ r); auto.
+    + unfold nx. rewrite fired_freeze. auto.
+    + rewrite (delta2_curr sync_code D cur nx) by (intros; apply sync_code_curr). auto.
 Qed.
 
 Theorem async_reset_rise_loads_init D e cur d r p i b : 0 <= b -> d <> 0%nat ->
@@ -303,6 +332,16 @@ Proof.
   - unfold fired, rst_rise. rewrite Hr, Ha, Hnew. simpl.
     replace (cur r =? 1) with false by lia. simpl. apply orb_true_r.
   - rewrite Hnew. discriminate.
+Qed.
+
+(* reset-less signals: a reset rise alone leaves them untouched *)
+Theorem reset_rise_keeps_reset_less D e cur d i b : 0 <= b -> d <> 0%nat ->
+  only_dom D d i b -> ~ In i (map fst e) -> sd_reset_less (g_tab D i) = true ->
+  clk_edge (g_doms D d) cur (apply_writes e cur) = false ->
+  Z.testbit (step D e cur i) b = Z.testbit (cur i) b.
+Proof.
+  intros Hb Hd Honly He Hrl Hck.
+  destruct (no_clock_edge_keeps_or_resets D e cur d i b Hb Hd Honly He Hck) as [H|[_ [H _]]]; auto. congruence.
 Qed.
 
 (* ================= LHSMaskCollector.chunks ================= *)
@@ -1026,6 +1065,18 @@ Proof.
   intros Ha Hb. unfold differs. induction (seq 0 n) as [|x l IH]; simpl; auto. rewrite IH, (Ha x), (Hb x). reflexivity.
 Qed.
 
+Lemma clk_edge_ext c old old' new new' : eqe old old' -> eqe new new' -> clk_edge c old new = clk_edge c old' new'.
+Proof. intros Ho Hn. unfold clk_edge. rewrite (Ho (d_clk c)), (Hn (d_clk c)). reflexivity. Qed.
+Lemma rst_rise_ext c old old' new new' : eqe old old' -> eqe new new' -> rst_rise c old new = rst_rise c old' new'.
+Proof. intros Ho Hn. unfold rst_rise. destruct (d_rst c) as [r|]; auto. rewrite (Ho r), (Hn r). reflexivity. Qed.
+
+(* the reset-only activation depends on the statements only through their masks *)
+Lemma reset_only_rel tab ss ss' st st' : (forall i, stmts_mask ss i = stmts_mask ss' i) -> eqs st st' ->
+  eqs (reset_only tab ss st) (reset_only tab ss' st').
+Proof.
+  intros Hm [Hc Hn]. split; [exact Hc|]. intros i. unfold reset_only; cbn [s_next]. rewrite (Hm i), (Hn i). reflexivity.
+Qed.
+
 Lemma fired_ext c old old' new new' : eqe old old' -> eqe new new' -> fired c old new = fired c old' new'.
 Proof.
   intros Ho Hn. unfold fired, clk_edge, rst_rise. rewrite (Ho (d_clk c)), (Hn (d_clk c)).
@@ -1083,6 +1134,9 @@ Hypothesis HT : forall p, In p (g_procs D) -> fst (T p) = fst p /\ (fst p = 0%na
 Hypothesis Hproc : forall p, In p (g_procs D) -> fst p <> 0%nat -> forall rst st i,
   s_next (sync_process (g_tab D) (snd (T p)) rst st) i
   = s_next (sync_ctl (g_tab D) (snd p) rst (en_of (fst p) (s_curr st)) (rs_of (fst p) (s_curr st)) st) i.
+(* ... and the rewriting keeps the LHS masks (what a reset rise alone loads) *)
+Hypothesis Hmask : forall p, In p (g_procs D) -> fst p <> 0%nat -> forall i,
+  stmts_mask (snd (T p)) i = stmts_mask (snd p) i.
 Hypothesis Hen : forall d a a', eqe a a' -> en_of d a = en_of d a'.
 Hypothesis Hrs : forall d a a', eqe a a' -> rs_of d a = rs_of d a'.
 
@@ -1110,8 +1164,9 @@ Proof.
     { unfold delta2, ctl_proc. cbn [g_tab g_doms map_procs]. rewrite H1.
       destruct (Nat.eqb (fst p) 0) eqn:E0.
       - apply Nat.eqb_eq in E0. rewrite (H2 E0). apply comb_process_ext; auto.
-      - apply Nat.eqb_neq in E0. unfold sync_code. rewrite (fired_ext _ cur cur' nx nx' Hcur Hnx).
-        destruct (fired _ _ _); auto.
+      - apply Nat.eqb_neq in E0. unfold sync_code.
+        rewrite (clk_edge_ext _ cur cur' nx nx' Hcur Hnx), (rst_rise_ext _ cur cur' nx nx' Hcur Hnx).
+        destruct (clk_edge _ _ _); [|destruct (rst_rise _ _ _); auto; apply reset_only_rel; auto; apply Hmask; auto].
         destruct Hs as [Hsc Hsn]. split; [exact Hsc|]. intros i.
         rewrite (Hproc p Hin E0).
         rewrite (Hen (fst p) (s_curr st) nx'), (Hrs (fst p) (s_curr st) nx')
@@ -1119,7 +1174,8 @@ Proof.
         apply (sync_ctl_ext (g_tab D) (snd p) _ _ _ st st'). split; auto. }
     apply IH; auto.
     - intros q Hq. apply Hl. simpl. auto.
-    - unfold ctl_proc. destruct (Nat.eqb (fst p) 0); [exact Hc'|]. destruct (fired _ _ _); exact Hc'. }
+    - unfold ctl_proc. destruct (Nat.eqb (fst p) 0); [exact Hc'|]. destruct (clk_edge _ _ _); [exact Hc'|].
+      destruct (rst_rise _ _ _); exact Hc'. }
   apply G; [apply incl_refl| split; exact Hnx | apply eqe_refl].
 Qed.
 
@@ -1179,6 +1235,19 @@ Proof.
   destruct (lookup (fst p) ctl); split; auto; intros; congruence.
 Qed.
 
+Lemma stmts_mask_enable_n cs : forall ss, stmts_mask (enable_n cs ss) = stmts_mask ss.
+Proof.
+  unfold enable_n. induction cs as [|c cs IH]; intros ss; [reflexivity|]. cbn [fold_left]. rewrite IH.
+  apply stmts_mask_ctl_switch.
+Qed.
+
+Lemma stmts_mask_reset_n tab cs : tab_ok tab -> forall ss, collector_ok_n tab cs ss ->
+  forall i, stmts_mask (reset_n tab cs ss) i = stmts_mask ss i.
+Proof.
+  intros Ht. unfold reset_n. induction cs as [|c cs IH]; intros ss Hk i; [reflexivity|].
+  destruct Hk as [Hk1 Hk2]. cbn [fold_left]. rewrite IH by auto. apply stmts_mask_reset; auto.
+Qed.
+
 (* ResetInserter: over every event sequence the wrapped design is the original design run with the explicit
    extra reset `ctl d` on every sync process of a named domain d (enable constantly high) *)
 Theorem reset_inserter_refines D ctl : tab_ok (g_tab D) -> ctl_ok ctl ->
@@ -1194,6 +1263,10 @@ Proof.
     destruct (lookup (fst p) ctl) as [c|] eqn:E.
     + cbn [snd]. apply reset_process; eauto. apply Hk; auto. congruence.
     + symmetry. apply sync_ctl_plain.
+  - intros p Hin H0 i. unfold reset_entry.
+    replace (Nat.eqb (fst p) 0) with false by (symmetry; apply Nat.eqb_neq; auto).
+    destruct (lookup (fst p) ctl) as [c|] eqn:E; [|reflexivity].
+    cbn [snd]. apply stmts_mask_reset; auto. apply Hk; auto. congruence.
   - reflexivity.
   - intros; apply ctl_of_ext; auto.
 Qed.
@@ -1210,6 +1283,10 @@ Proof.
     destruct (lookup (fst p) ctl) as [c|] eqn:E.
     + cbn [snd]. apply enable_process; eauto.
     + symmetry. apply sync_ctl_plain.
+  - intros p Hin H0 i. unfold enable_entry.
+    replace (Nat.eqb (fst p) 0) with false by (symmetry; apply Nat.eqb_neq; auto).
+    destruct (lookup (fst p) ctl) as [c|] eqn:E; [|reflexivity].
+    cbn [snd]. rewrite stmts_mask_ctl_switch. reflexivity.
   - intros; apply ctl_of_ext; auto.
   - reflexivity.
 Qed.
@@ -1247,6 +1324,9 @@ Proof.
   - intros p Hin H0 rst st i. unfold stack_entry.
     replace (Nat.eqb (fst p) 0) with false by (symmetry; apply Nat.eqb_neq; auto). cbn [snd].
     apply reset_n_process; auto.
+  - intros p Hin H0 i. unfold stack_entry.
+    replace (Nat.eqb (fst p) 0) with false by (symmetry; apply Nat.eqb_neq; auto). cbn [snd].
+    apply stmts_mask_reset_n; auto.
   - reflexivity.
   - intros d a a' H. apply existsb_ctl_on_ext; auto.
 Qed.
@@ -1261,6 +1341,9 @@ Proof.
   - intros p Hin H0 rst st i. unfold stack_entry.
     replace (Nat.eqb (fst p) 0) with false by (symmetry; apply Nat.eqb_neq; auto). cbn [snd].
     apply enable_n_process; auto.
+  - intros p Hin H0 i. unfold stack_entry.
+    replace (Nat.eqb (fst p) 0) with false by (symmetry; apply Nat.eqb_neq; auto). cbn [snd].
+    rewrite stmts_mask_enable_n. reflexivity.
   - intros d a a' H. apply forallb_ctl_on_ext; auto.
   - reflexivity.
 Qed.
@@ -1278,6 +1361,9 @@ Proof.
   - intros p Hin H0 rst st i. unfold stack_entry.
     replace (Nat.eqb (fst p) 0) with false by (symmetry; apply Nat.eqb_neq; auto). cbn [snd].
     unfold reset_n. cbn [fold_left]. rewrite reset_process by auto. rewrite Hor. reflexivity.
+  - intros p Hin H0 i. unfold stack_entry.
+    replace (Nat.eqb (fst p) 0) with false by (symmetry; apply Nat.eqb_neq; auto). cbn [snd].
+    unfold reset_n. cbn [fold_left]. apply stmts_mask_reset; auto.
   - reflexivity.
   - intros d a a' H. apply existsb_ctl_on_ext; auto.
 Qed.
@@ -1293,6 +1379,9 @@ Proof.
   - intros p Hin H0 rst st i. unfold stack_entry.
     replace (Nat.eqb (fst p) 0) with false by (symmetry; apply Nat.eqb_neq; auto). cbn [snd].
     unfold enable_n. cbn [fold_left]. rewrite enable_process by auto. rewrite Hand. reflexivity.
+  - intros p Hin H0 i. unfold stack_entry.
+    replace (Nat.eqb (fst p) 0) with false by (symmetry; apply Nat.eqb_neq; auto). cbn [snd].
+    unfold enable_n. cbn [fold_left]. rewrite stmts_mask_ctl_switch. reflexivity.
   - intros d a a' H. apply forallb_ctl_on_ext; auto.
   - reflexivity.
 Qed.
@@ -1314,13 +1403,17 @@ Variables (D : design) (en_of rs_of : nat -> env -> bool).
 Let F := ctl_proc (g_tab D) (g_doms D) en_of rs_of.
 
 Lemma ctl_proc_curr cur nx st p : s_curr (F cur nx st p) = s_curr st.
-Proof. unfold F, ctl_proc. destruct (Nat.eqb (fst p) 0); auto. destruct (fired _ _ _); auto. Qed.
+Proof.
+  unfold F, ctl_proc. destruct (Nat.eqb (fst p) 0); auto. destruct (clk_edge _ _ _); auto.
+  destruct (rst_rise _ _ _); auto.
+Qed.
 
 Lemma ctl_proc_frame cur nx st p i b : 0 <= b -> Z.testbit (um (g_tab D) (snd p) i) b = false ->
   Z.testbit (s_next (F cur nx st p) i) b = Z.testbit (s_next st i) b.
 Proof.
   intros Hb H. unfold F, ctl_proc. destruct (Nat.eqb (fst p) 0); [apply comb_frame; auto|].
-  destruct (fired _ _ _); auto. apply sync_ctl_frame; auto.
+  destruct (clk_edge _ _ _); [apply sync_ctl_frame; auto|].
+  destruct (rst_rise _ _ _); [apply reset_only_frame; auto|reflexivity].
 Qed.
 
 Lemma ctl_fold_frame cur nx i b : 0 <= b -> forall l,
@@ -1358,17 +1451,24 @@ Qed.
 Theorem ctl_reset_loads_init e cur p i b : 0 <= b -> sole_driver D p i b -> fst p <> 0%nat ->
   (forall d a a', eqe a a' -> rs_of d a = rs_of d a') ->
   Z.testbit (um (g_tab D) (snd p) i) b = true -> sd_reset_less (g_tab D i) = false ->
-  fired (g_doms D (fst p)) cur (apply_writes e cur) = true ->
+  clk_edge (g_doms D (fst p)) cur (apply_writes e cur) = true ->
   rs_of (fst p) (apply_writes e cur) = true ->
   Z.testbit (step_ctl en_of rs_of D e cur i) b = Z.testbit (sd_init (g_tab D i)) b.
 Proof.
   intros Hb Hsole Hp Hrs Hd Hrl Hf Hon. destruct (step_ctl_sole e cur p i b Hb Hsole Hp) as [st [Hc [_ ->]]].
   unfold F, ctl_proc. replace (Nat.eqb (fst p) 0) with false by (symmetry; apply Nat.eqb_neq; auto).
-  rewrite fired_freeze, Hf. apply sync_ctl_reset_bit; auto. left.
+  rewrite clk_edge_freeze, Hf. apply sync_ctl_reset_bit; auto. left.
   rewrite (Hrs (fst p) _ (apply_writes e cur)); auto. apply freeze_eqe.
 Qed.
 
 (* enable low, no reset: the register bit keeps its value, edge or not *)
+Lemma rst_low_no_rise c old new :
+  match d_rst c with Some r => Z.land 1 (new r) = 0 | None => True end -> rst_rise c old new = false.
+Proof.
+  unfold rst_rise. destruct (d_rst c) as [r|]; auto. intros H. destruct (new r =? 1) eqn:E; [|rewrite andb_false_r; auto].
+  apply Z.eqb_eq in E. rewrite E in H. discriminate.
+Qed.
+
 Theorem ctl_enable_low_keeps e cur p i b : 0 <= b -> sole_driver D p i b -> fst p <> 0%nat ->
   (forall d a a', eqe a a' -> rs_of d a = rs_of d a') -> (forall d a a', eqe a a' -> en_of d a = en_of d a') ->
   ~ In i (map fst e) ->
@@ -1379,7 +1479,9 @@ Proof.
   intros Hb Hsole Hp Hrs Hen He Hen0 Hrs0 Hr. destruct (step_ctl_sole e cur p i b Hb Hsole Hp) as [st [Hc [Hn ->]]].
   rewrite <- (apply_writes_other e cur i He), <- Hn.
   unfold F, ctl_proc. replace (Nat.eqb (fst p) 0) with false by (symmetry; apply Nat.eqb_neq; auto).
-  destruct (fired _ _ _); auto.
+  rewrite (rst_low_no_rise (g_doms D (fst p)) cur)
+    by (destruct (d_rst (g_doms D (fst p))); auto; rewrite freeze_eq; auto).
+  destruct (clk_edge _ _ _); auto.
   rewrite (Hen (fst p) _ (apply_writes e cur)), (Hrs (fst p) _ (apply_writes e cur)) by apply freeze_eqe.
   rewrite Hen0, Hrs0. rewrite sync_ctl_frozen; auto.
   destruct (d_rst (g_doms D (fst p))); auto. rewrite Hc, freeze_eq. auto.
@@ -1399,7 +1501,7 @@ Proof.
   intros Hb Hsole Hp Hrs Hen Hen1 Hrs0. destruct (step_ctl_sole e cur p i b Hb Hsole Hp) as [st [Hc [Hn ->]]].
   exists st. split; auto. split; auto.
   unfold F, ctl_proc, sync_code. replace (Nat.eqb (fst p) 0) with false by (symmetry; apply Nat.eqb_neq; auto).
-  rewrite fired_freeze. destruct (fired _ _ _); auto.
+  rewrite clk_edge_freeze, rst_rise_freeze. destruct (clk_edge _ _ _); auto.
   rewrite (Hen (fst p) _ (apply_writes e cur)), (Hrs (fst p) _ (apply_writes e cur)) by apply freeze_eqe.
   rewrite Hen1. destruct Hrs0 as [H0|Hrl].
   - rewrite H0. rewrite sync_ctl_plain. reflexivity.
@@ -1425,7 +1527,7 @@ Theorem reset_inserter_trace_loads_init pre e cur0 p c i b :
   let s := state_after (step D') pre cur0 in
   0 <= b -> sole_driver D p i b -> fst p <> 0%nat -> lookup (fst p) ctl = Some c ->
   Z.testbit (um (g_tab D) (snd p) i) b = true -> sd_reset_less (g_tab D i) = false ->
-  fired (g_doms D (fst p)) s (apply_writes e s) = true ->
+  clk_edge (g_doms D (fst p)) s (apply_writes e s) = true ->
   ctl_on (apply_writes e s) c = true ->
   Z.testbit (state_after (step D') (pre ++ [e]) cur0 i) b = Z.testbit (sd_init (g_tab D i)) b.
 Proof.
